@@ -32,10 +32,10 @@ EXHAUSTIVE = {"quick": False, "thorough": False}
 def floors(tier):
     return {
         "evals": {"kg.open": 250, "kg.save": 250, "kg.modify": 250, "po.open": 2000, "po.save": 1000, "kg.reopen": 200},
-        "classes": {"C19:modify-last-subtier-with-short-integer": 30, "C19:praat-style-trailing-blank": 100, "C19:praatio-style-no-trailing-blank": 100,
+        "classes": {"C19:modify-last-subtier-with-short-integer": 15, "C19:praat-style-trailing-blank": 100, "C19:praatio-style-no-trailing-blank": 100,
                     "C19:reference-file": 2, "C19:po:zero-points": 100, "C19:po:long": 500, "C19:po:short": 500, "C19:po:PointProcess": 200,
                     "C19:po:PitchTier": 200, "C19:po:DurationTier": 200, "C19:po:long-short-equal": 300, "C19:value:integer": 100, "C19:value:zero": 30,
-                    "C19:value:tiny-or-huge": 50, "C19:value:negative": 30},
+                    "C19:value:tiny-or-huge": 50, "C19:value:negative": 30, "C19:modify-amplitudes-tier": 20, "C19:modify-directly-after-a-save": 20},
     }
 
 
@@ -195,7 +195,7 @@ class Recorder:
         return self.f(v)
 
 
-def modify(kg, container, inter_name, fname, f, work, k, last_sub):
+def modify(kg, container, inter_name, fname, f, work, k, last_sub, direct=False):
     """kg.tierDict[container].modifySubtiers(inter_name, f) then save/open: addressed values are exactly float(f(v)),
     everything else untouched, f called exactly once per addressed value."""
     from praatio import klattgrid
@@ -206,7 +206,12 @@ def modify(kg, container, inter_name, fname, f, work, k, last_sub):
     sig = ("modify", container, inter_name, fname, last_sub)
     mech = {"op": "kg.modify", "func": fname}
     try:
-        kg._tierDict[container].modifySubtiers(inter_name, rec)
+        if direct:
+            kit = kg._tierDict[container].tierDict[inter_name]
+            for sname in kit.tierNameList:
+                kit.tierDict[sname].modifyValues(rec)
+        else:
+            kg._tierDict[container].modifySubtiers(inter_name, rec)
     except Exception as e:
         REC.violation(PROP, "kg.modify", "modifySubtiers", case, "raised %s: %s" % (type(e).__name__, e), sig, dict(mech, exc=type(e).__name__))
         return None
@@ -435,13 +440,24 @@ def _workload(tier, rng, shard, nshards, work):
                     REC.violation(PROP, "kg.reopen", "save;open;save", {"call": "kg.reopen", "file": text}, "re-saving the unmodified reopened grid changed the text", ("resave",), {"op": "kg.resave"})
                 kg = kg2
         fname = rng.choice(sorted(FUNCS))
-        container, inter = rng.choice([("oral_formants", "formants"), ("oral_formants", "bandwidths"), ("frication_formants", "formants"), ("frication_formants", "bandwidths"),
-                                       ("nasal_formants", "formants"), ("delta_formants", "formants")])
+        container, inter = rng.choice([("oral_formants", "formants"), ("oral_formants", "bandwidths"), ("oral_formants", "bandwidths"), ("frication_formants", "formants"),
+                                       ("frication_formants", "bandwidths"), ("frication_formants", "bandwidths"),
+                                       ("nasal_formants", "formants"), ("delta_formants", "formants"), ("frication_formants", "frication_formants_amplitudes"),
+                                       ("nasal_antiformants", "oral_formants_amplitudes"), ("nasal_antiformants", "nasal_formants_amplitudes"),
+                                       ("tracheal_antiformants", "tracheal_formants_amplitudes"), ("nasal_antiformants", "formants")])
+        if "amplitudes" in inter:
+            REC.cls("C19:modify-amplitudes-tier")
         last_sub = inter == "bandwidths"
         if last_sub and fname in ("const50", "const5", "const0", "int(v)", "const7.0") and any(spec["oral_bw"][-1:] if container == "oral_formants" else spec["fric_bw"][-1:]):
             REC.cls("C19:modify-last-subtier-with-short-integer")
         _current.update(classes=["C19:praatio-style-no-trailing-blank"], sig=("mod", fname, container, inter))
-        modify(kg, container, inter, fname, FUNCS[fname], work, k, last_sub)
+        back = modify(kg, container, inter, fname, FUNCS[fname], work, k, last_sub)
+        if back is not None and k % 2 == 0:
+            # the grid has been saved before: change values again, this time through the sub-tiers' own modifyValues, and save again
+            REC.cls("C19:modify-directly-after-a-save")
+            f2 = rng.choice(["x1.2", "const7.0", "neg", "x10"])
+            c2, i2 = rng.choice([("oral_formants", "formants"), ("oral_formants", "bandwidths"), ("frication_formants", "formants")])
+            modify(kg, c2, i2, f2, FUNCS[f2], work, k + 1, i2 == "bandwidths", direct=True)
     m = (3000 if tier == "quick" else 100000) // nshards
     for k in range(m):
         klass = rng.choice(["PointProcess", "PitchTier", "DurationTier"])
